@@ -36,7 +36,7 @@ func init() {
 const specName = "SessionCacheLocks"
 
 type scenario struct {
-	Kind    string          `json:"kind"` // "race" | "history" | "functional"
+	Kind    string          `json:"kind"` // "race" | "history" | "functional" | "alloc"
 	Job     *c17drv.Job     `json:"job,omitempty"`
 	Race    string          `json:"race,omitempty"`
 	Outcome string          `json:"outcome,omitempty"`
@@ -353,6 +353,15 @@ func replay(c *core.Ctx) bool {
 				functionalFailures(c, []*childRun{cr}, nil)
 			}
 		}
+	case "alloc":
+		for try := 0; try < 5 && c.Failures() == 0; try++ {
+			cr := runChild(c, *sc.Job)
+			if cr.err != nil {
+				c.Broken("child: %v", cr.err)
+				return true
+			}
+			allocFailures(c, []*childRun{cr}, nil)
+		}
 	default:
 		c.Broken("replay file has unknown scenario kind %q", sc.Kind)
 	}
@@ -394,7 +403,14 @@ func functionalFailures(c *core.Ctx, runs []*childRun, rerun func(job c17drv.Job
 				continue
 			}
 			confirmed := rerun == nil
-			if rerun != nil {
+			for k := range kinds {
+				// a duplicated session id seen by two handshakes is the same defect the
+				// allocation hammer of this run has already confirmed by its re-run
+				if _, isAlloc := allocChecks[k]; isAlloc && allocConfirmed {
+					confirmed = true
+				}
+			}
+			if rerun != nil && !confirmed {
 				job := cr.job
 				job.Phases = []string{phase}
 				for try := 0; try < 3 && !confirmed; try++ {
@@ -433,8 +449,12 @@ func functionalFailures(c *core.Ctx, runs []*childRun, rerun func(job c17drv.Job
 				job := cr.job
 				job.Phases = []string{phase}
 				job.Out = ""
+				sig := map[string]string{"spec": specName, "action": action, "outcome": k}
+				if chk, isAlloc := allocChecks[k]; isAlloc {
+					sig = map[string]string{"spec": allocSpec, "check": chk, "path": "handshake/" + phase}
+				}
 				c.Fail(core.Failure{
-					Signature: map[string]string{"spec": specName, "action": action, "outcome": k},
+					Signature: sig,
 					Detail: fmt.Sprintf("%d of %d concurrent operations of phase %s were disturbed (the same operations succeed one at a time); first: %s",
 						len(st.Fails), st.Handshakes, phase, kinds[k]),
 					Scenario: scenario{Kind: "functional", Job: &job, Outcome: k},
@@ -442,6 +462,76 @@ func functionalFailures(c *core.Ctx, runs []*childRun, rerun func(job c17drv.Job
 			}
 		}
 	}
+}
+
+const allocSpec = "SessionIdAlloc"
+
+// allocConfirmed: an allocation hammer of this run found and re-found a duplicate
+var allocConfirmed bool
+
+// outcomes of the network phases that belong to SessionIdAlloc.tla
+var allocChecks = map[string]string{
+	"duplicate_session_id":    "unique-session-id",
+	"own_session_not_resumed": "resumes-own-session",
+	"session_replaced":        "no-foreign-replace",
+}
+
+// allocFailures judges the session-id allocation hammers (UniqueIds / NoForeignReplace
+// of SessionIdAlloc.tla on the real security.GetNextSessionCounter / GenerateSessionID).
+// A duplicate is a recorded fact; it is nevertheless confirmed by an immediate re-run
+// of the same hammer (DESIGN §5 (ii)).
+func allocFailures(c *core.Ctx, runs []*childRun, rerun func(job c17drv.Job) *childRun) (calls, minted, dups int64) {
+	reported := map[string]bool{}
+	for _, cr := range runs {
+		for _, a := range cr.res.Alloc {
+			calls += a.Calls
+			minted += int64(a.Minted)
+			dups += a.DupValues + int64(a.DupIDs)
+			c.Eval(fmt.Sprintf("alloc/%d/%d", cr.job.Procs, a.Calls), true)
+			bad := map[string]string{}
+			if a.DupValues > 0 {
+				bad["unique-session-id"] = fmt.Sprintf("security.GetNextSessionCounter handed %d values to more than one of %d concurrent callers (%d calls, GOMAXPROCS=%d), e.g. %s: two handshakes finishing together mint the same session id",
+					a.DupValues, a.Goroutines, a.Calls, cr.job.Procs, a.DupExample)
+			}
+			if a.DupIDs > 0 || a.Stored < a.Minted {
+				bad["no-foreign-replace"] = fmt.Sprintf("%d sessions were minted (GenerateSessionID(GetNextSessionCounter())) and stored concurrently, %d ids were handed out twice and the cache holds %d: a Store replaced another handshake's entry",
+					a.Minted, a.DupIDs, a.Stored)
+			}
+			for chk, detail := range bad {
+				if reported[chk] {
+					continue
+				}
+				confirmed := rerun == nil
+				job := cr.job
+				job.Phases = []string{"alloc"}
+				for try := 0; try < 3 && !confirmed; try++ {
+					r2 := rerun(job)
+					if r2.err != nil {
+						c.Broken("child: %v", r2.err)
+						break
+					}
+					for _, b := range r2.res.Alloc {
+						if (chk == "unique-session-id" && b.DupValues > 0) || (chk == "no-foreign-replace" && (b.DupIDs > 0 || b.Stored < b.Minted)) {
+							confirmed = true
+						}
+					}
+				}
+				if !confirmed {
+					c.Broken("session-id allocation difference (%s) did not reproduce on re-run (flaky): %s", chk, detail)
+					continue
+				}
+				reported[chk] = true
+				allocConfirmed = true
+				job.Out = ""
+				c.Fail(core.Failure{
+					Signature: map[string]string{"spec": allocSpec, "check": chk, "path": "GetNextSessionCounter"},
+					Detail:    detail,
+					Scenario:  scenario{Kind: "alloc", Job: &job, Outcome: chk},
+				})
+			}
+		}
+	}
+	return
 }
 
 func run(c *core.Ctx) {
@@ -469,6 +559,7 @@ func run(c *core.Ctx) {
 
 	// 1. the lock model
 	cfgs := []string{"MC_C17_quick.cfg", "MC_C17_handshake.cfg"}
+	allocCfg := "MC_C17_alloc.cfg" // SessionIdAlloc.tla: minting session ids while handshakes finish together
 	if c.Thorough() {
 		cfgs = []string{"MC_C17_quick.cfg", "MC_C17_handshake.cfg", "MC_C17_full.cfg", "MC_C17_cmd.cfg", "MC_C17_core.cfg"}
 	}
@@ -476,6 +567,9 @@ func run(c *core.Ctx) {
 	mcwg.Add(1)
 	go func() {
 		defer mcwg.Done()
+		if want("mc") && kit.ModelCheck(c, allocSpec+".tla", allocCfg, tlc.Options{Workers: 4, Timeout: 10 * time.Minute}) == nil {
+			return
+		}
 		for _, cfg := range cfgs {
 			if !want("mc") {
 				return
@@ -489,11 +583,13 @@ func run(c *core.Ctx) {
 	// sizes of the stress
 	seed := c.Seed
 	pairMs, stressMs, episodes, clients, iters, conns := 70, 1500, 300, 12, 6, 6
+	allocN, allocM := 40000, 1500 // per goroutine (16): 640 k counter calls, 24 k minted+stored sessions per child
 	procs := []int{2, 4, 16}
 	gateMs := 25
 	if c.Thorough() {
 		gateMs = 120
 		pairMs, stressMs, episodes, clients, iters, conns = 400, 20000, 1000, 24, 12, 12
+		allocN, allocM = 400000, 10000
 		procs = []int{1, 2, 3, 4, 8, 16}
 	}
 
@@ -547,7 +643,7 @@ func run(c *core.Ctx) {
 			ps = pairs
 		}
 		if want("cache") {
-			jobs = append(jobs, c17drv.Job{Phases: []string{"pairs", "stress"}, Seed: seed*31 + int64(i), Procs: p, Yield: i%2 == 1, Pairs: ps, PairMs: pairMs, StressMs: stressMs, StressG: 2 * p})
+			jobs = append(jobs, c17drv.Job{Phases: []string{"alloc", "pairs", "stress"}, Seed: seed*31 + int64(i), Procs: p, Yield: i%2 == 1, Pairs: ps, PairMs: pairMs, StressMs: stressMs, StressG: 2 * p, AllocG: 16, AllocN: allocN, AllocM: allocM})
 		}
 	}
 	// histories first: their validation by TLC overlaps with the remaining children
@@ -645,6 +741,15 @@ func run(c *core.Ctx) {
 	c.Set("race_reports", reports)
 	c.Set("race_pairs", racePairs)
 
+	// 4b. session-id allocation hammers (SessionIdAlloc.tla on the real allocator)
+	aCalls, aMinted, aDups := allocFailures(c, runs, func(job c17drv.Job) *childRun { return runChild(c, job) })
+	if want("cache") && aCalls == 0 {
+		c.Broken("session-id allocation hammer is vacuous: no call")
+	}
+	c.Set("session_counter_calls_concurrent", aCalls)
+	c.Set("sessions_minted_and_stored_concurrently", aMinted)
+	c.Set("session_id_duplicates", aDups)
+
 	// 5. functional disturbances (handshakes sharing one configuration, duplex streams)
 	functionalFailures(c, runs, func(job c17drv.Job) *childRun { return runChild(c, job) })
 
@@ -690,6 +795,6 @@ func run(c *core.Ctx) {
 	sort.Ints(pl)
 	c.Set("gomaxprocs", pl)
 	c.Set("rule", "model: every interleaving of the critical-section steps of 3 goroutines x <=2 cache operations over 2 ids (TLC, invariants LocksetDiscipline, NoTornExpiry, NoLostInvalidate, RefinesSeq, Linearizable); "+
-		"binding: every conflicting operation pair of the model (generated by TLC) hammered on the real cache, plus seeded random stress, many clients sharing one SecurityConfig and one cache against one real server whose per-command policy hook returns one shared object (fresh and resuming; plus all-fresh concurrent handshakes), overlapping handshakes through one shared SecurityManager per side (sm.ServerHandshake / sm.ClientHandshake, encrypted echo), and simultaneous send/receive on established streams, all in race-enabled child processes at several GOMAXPROCS with injected yields; "+
+		"binding: every conflicting operation pair of the model (generated by TLC) hammered on the real cache, plus seeded random stress, many clients sharing one SecurityConfig and one cache against one real server whose per-command policy hook returns one shared object (fresh and resuming; plus all-fresh concurrent handshakes), session-id allocation (SessionIdAlloc.tla: UniqueIds, NoForeignReplace, ResumesOwnSession) bound by hammering security.GetNextSessionCounter / GenerateSessionID+Store from 16 goroutines with a uniqueness check, by the uniqueness of every session id a fresh handshake was told, and by resuming EVERY session of the all-fresh storm afterwards; overlapping handshakes through one shared SecurityManager per side (sm.ServerHandshake / sm.ClientHandshake, encrypted echo), and simultaneous send/receive on established streams, all in race-enabled child processes at several GOMAXPROCS with injected yields; "+
 		"each distinct pair of racing cedar functions in the race log is one failure; evaluations = pair hammers + stress runs + network phases + recorded histories; gated schedules (operation A held at its expiry check by the VerifGate hook while a conflicting operation B of the model runs: deterministic replay of the model interleavings that split lookup-and-evict); every recorded call/return history (<= ~32 operations, <= 4 goroutines, quiescent post-condition reads included) is validated by TLC against the sequential cache specification as a linearizability search")
 }
